@@ -46,6 +46,9 @@ pub struct Case {
 	pub reload: u8,
 	/// the shadow also uses preimages the real B learned later
 	pub shadow_learns_preimages: bool,
+	/// anchors only: the cheater lays its HTLC transaction out fee-input-first and gets it confirmed in
+	/// the *same* block as the revoked commitment (both are free choices of the cheater)
+	pub same_block_fee_first: bool,
 }
 
 struct Snap {
@@ -89,6 +92,38 @@ fn snapshot(w: &World, cid: &ChannelId, pending_to_b: Vec<usize>) -> Snap {
 		holder_number: holder_number_of(w, 1),
 		pending_to_b,
 	}
+}
+
+/// The cheater's own HTLC transaction for `descs`, laid out [fee input, HTLC inputs...] / [change, HTLC outputs...]
+/// (SIGHASH_SINGLE|ANYONECANPAY on the counterparty's signatures keeps input i paired with output i).
+fn fee_first_htlc_tx(shadow: &McNode, descs: &[lightning::sign::HTLCDescriptor], lock_time: bitcoin::absolute::LockTime) -> Option<bitcoin::Transaction> {
+	use bitcoin::secp256k1::Secp256k1;
+	use lightning::sign::ecdsa::EcdsaChannelSigner;
+	use lightning::sign::SignerProvider;
+	let secp = Secp256k1::new();
+	let utxo = shadow.wallet.list_confirmed_utxos().ok()?.into_iter().next()?;
+	let fee = 2_000u64;
+	if utxo.output.value.to_sat() <= fee + 1_000 {
+		return None;
+	}
+	let mut tx = bitcoin::Transaction {
+		version: bitcoin::transaction::Version(2),
+		lock_time,
+		input: vec![bitcoin::TxIn { previous_output: utxo.outpoint, script_sig: bitcoin::ScriptBuf::new(), sequence: bitcoin::Sequence::ENABLE_RBF_NO_LOCKTIME, witness: bitcoin::Witness::new() }],
+		output: vec![bitcoin::TxOut { value: bitcoin::Amount::from_sat(utxo.output.value.to_sat() - fee), script_pubkey: shadow.wallet.get_change_script().ok()? }],
+	};
+	for d in descs {
+		tx.input.push(d.unsigned_tx_input());
+		tx.output.push(d.tx_output(&secp));
+	}
+	let mut tx = shadow.wallet.sign_tx(tx).ok()?;
+	for (i, d) in descs.iter().enumerate() {
+		let signer = shadow.keys.derive_channel_signer(d.channel_derivation_parameters.keys_id);
+		let sig = signer.sign_holder_htlc_transaction(&tx, i + 1, d, &secp).ok()?;
+		let ws = d.witness_script(&secp);
+		tx.input[i + 1].witness = d.tx_input_witness(&sig, &ws);
+	}
+	Some(tx)
 }
 
 #[derive(Debug)]
@@ -201,6 +236,7 @@ pub fn run_case(c: &Case) -> Result<Option<Outcome>, (String, String)> {
 		Some(f) => f,
 		None => return Err(viol("harness", "no funding outpoint".into())),
 	};
+	let fee_first = c.same_block_fee_first;
 	let mut pump_shadow = |shadow: &mut McNode, w: &mut World, shadow_txs: &mut Vec<bitcoin::Txid>, revoked: &mut Option<bitcoin::Txid>| {
 		use lightning::events::{EventsProvider, ReplayEvent};
 		for _ in 0..3 {
@@ -215,6 +251,16 @@ pub fn run_case(c: &Case) -> Result<Option<Outcome>, (String, String)> {
 			});
 			for e in evs.into_inner() {
 				if let Event::BumpTransaction(b) = e {
+					if fee_first {
+						if let lightning::events::bump_transaction::BumpTransactionEvent::HTLCResolution { htlc_descriptors, tx_lock_time, .. } = &b {
+							if let Some(tx) = fee_first_htlc_tx(shadow, htlc_descriptors, *tx_lock_time) {
+								crate::runner::witness("c06-fee-input-first-htlc-tx-built");
+								use lightning::chain::chaininterface::{BroadcasterInterface, TransactionType};
+								shadow.bc.broadcast_transactions(&[(&tx, TransactionType::Claim { counterparty_node_id: a_id, channel_id: cid })]);
+								continue;
+							}
+						}
+					}
 					shadow.bumper.handle_event(&b);
 				}
 			}
@@ -259,6 +305,34 @@ pub fn run_case(c: &Case) -> Result<Option<Outcome>, (String, String)> {
 	w.mine_mempool_block();
 	if !w.chain.confirmed.contains_key(&rtx) {
 		return Err(viol("harness", "revoked commitment did not confirm".into()));
+	}
+	if c.same_block_fee_first {
+		// The cheater sees that block privately, builds its second-stage transaction, and then gets a
+		// competing block mined that contains the commitment *and* the second-stage transaction; the
+		// victim only ever sees the competing block.
+		sync_shadow(&mut shadow, &w, &mut shadow_synced);
+		pump_shadow(&mut shadow, &mut w, &mut shadow_txs, &mut revoked_commitment);
+		let second: Vec<bitcoin::Transaction> = w.chain.mempool.iter().filter(|t| t.input.iter().any(|i| i.previous_output.txid == rtx)).cloned().collect();
+		if second.is_empty() {
+			return Ok(None); // nothing the cheater could claim in this state
+		}
+		let gone = w.chain.disconnect_tip();
+		{
+			use lightning::chain::Listen;
+			let h = w.chain.blocks.len() - 1;
+			let loc = lightning::chain::BlockLocator::new(w.chain.blocks[h].header.block_hash(), h as u32);
+			shadow.mon.blocks_disconnected(loc.clone());
+			shadow.cm.blocks_disconnected(loc);
+			shadow_synced = w.chain.blocks.len();
+		}
+		let commitment = gone.txdata.iter().find(|t| t.compute_txid() == rtx).cloned().expect("commitment in the disconnected block");
+		let mut both = vec![commitment];
+		both.extend(second);
+		w.chain.mine_ordered(both);
+		if !w.chain.confirmed.contains_key(&rtx) {
+			return Err(viol("harness", "revoked commitment did not re-confirm".into()));
+		}
+		crate::runner::witness("c06-second-stage-in-the-same-block");
 	}
 	// the victim may be slow: the cheater's second-stage transactions confirm first
 	for _ in 0..c.victim_delay {
@@ -421,7 +495,10 @@ pub fn cases(tier: Tier) -> Vec<Case> {
 					if !th && h.len() == 3 && (delay, reload) == (2, 1) {
 						continue;
 					}
-					v.push(Case { ct, history: h.clone(), snapshot: snap, victim_delay: delay, reload, shadow_learns_preimages: learns });
+					v.push(Case { ct, history: h.clone(), snapshot: snap, victim_delay: delay, reload, shadow_learns_preimages: learns, same_block_fee_first: false });
+					if ct == Ct::Anchors && learns && delay <= 1 && reload != 1 && h.iter().any(|o| matches!(o, HOp::AddAB | HOp::HugeAB)) && h.contains(&HOp::Claim) {
+						v.push(Case { ct, history: h.clone(), snapshot: snap, victim_delay: delay, reload, shadow_learns_preimages: learns, same_block_fee_first: true });
+					}
 				}
 			}
 		}
@@ -494,6 +571,12 @@ pub fn run(args: &Args) -> i32 {
 	ev.set("capped", capped > 0);
 	ev.set("cases_with_cheater_second_stage_confirmed", with_second_stage);
 	ev.set("outcomes", json!(outcomes));
+	let wit = crate::runner::witnesses();
+	ev.set("witnesses", json!(wit));
+	if capped == 0 && violations.is_empty() && (wit.get("c06-second-stage-in-the-same-block").copied().unwrap_or(0) == 0 || wit.get("c06-fee-input-first-htlc-tx-built").copied().unwrap_or(0) == 0) {
+		mc_common::cli::die("vacuity guard: no case confirmed a fee-input-first second-stage transaction in the block of the revoked commitment");
+	}
+	ev.assume("same-block cases (anchors): the cheater sees the block with its commitment privately, builds its HTLC transaction by hand (fee input first, re-signed with its own keys), and a competing block containing both is what the victim sees");
 	ev.assume("the cheater is a real LDK node restored from B's earlier durable state with its signer policy checks off; it broadcasts whatever the real code broadcasts for that state (commitment, HTLC-success with preimages it knows, later timeouts / to_local claims)");
 	ev.assume("miner: confirms every valid transaction in the next block in admission order; the victim may be kept uninformed for 0-2 blocks");
 	mc_common::findings::conclude("C06", &violations, &mut ev)
